@@ -49,6 +49,9 @@ def plan(tier, seed):
     n = 700 if tier == 'quick' else 8000
     for i in range(4):
         shards.append({'name': 'nocommon_%d' % i, 'kind': 'nocommon', 'n': n, 'seed': seed * 1000 + 241 + i})
+    for i in range(3):
+        shards.append({'name': 'contain_%d' % i, 'kind': 'contain', 'N': 40, 'n': 1500 if tier == 'quick' else 30000,
+                       'seed': seed * 1000 + 251 + i})
     for i in range(4):
         shards.append({'name': 'subset_%d' % i, 'kind': 'subset', 'n': n // 2, 'seed': seed * 1000 + 246 + i})
     return shards
@@ -329,6 +332,55 @@ def run_case(case, rec, ssj=None):
     raise ValueError(g)
 
 
+def contain_case(case, rec, ssj):
+    """Containment pairs next to the size boundary: a record of b tokens contained in one of a >= b
+    tokens, the shared tokens made the RAREST ones by filler rows (so they sit in both prefixes), on
+    either side of the join, at thresholds a relative 1e-6 .. 1e-4 next to the exact boundary score.
+    There the size bound evaluated from the left count and from the right count, the overlap bound
+    and the prefix length round separately; whatever they do, PositionFilter.filter_tables must keep
+    a subset of what SizeFilter and PrefixFilter keep, and SizeFilter must obey its own tolerance."""
+    a, b, m = case['a'], case['b'], case['measure']
+    t0 = best_sim(m, a, b)
+    t = min(1.0, max(1e-6, t0 * (1.0 + case['delta'])))
+    shared = ['s%d' % i for i in range(b)]
+    others = ['o%d' % i for i in range(a - b)]
+    big = [[1, ' '.join(shared + others)]] + [[10 + f, ' '.join(others + ['f%d' % f])] for f in range(3)]
+    small = [[2, ' '.join(shared)], [3, 'zz yy']]
+    if case['big_left']:
+        lrows, rrows = big, small
+    else:
+        lrows, rrows = small, big
+    L = T.table_spec(['id', 's'], lrows, dtypes={'s': 'object'})
+    R = T.table_spec(['id', 's'], rrows, dtypes={'s': 'object'})
+    outs = {}
+    for kind in ('PositionFilter', 'PrefixFilter', 'SizeFilter'):
+        call = {'api': 'filter_tables', 'filter': {'kind': kind, 'measure': m, 'threshold': t}, 'ltable': L,
+                'rtable': R, 'l_key': 'id', 'r_key': 'id', 'l_attr': 's', 'r_attr': 's',
+                'tok': {'kind': 'ws', 'return_set': True}, 'n_jobs': case.get('n_jobs', 1), 'warm': None}
+        try:
+            df = T.exec_call(ssj, call)
+        except Exception as e:
+            rec.count('calls_raised')
+            rec.add('raised', '%s: %s' % (type(e).__name__, str(e)[:80]))
+            return {'n': 0}
+        outs[kind] = set(zip(df['l_id'].tolist(), df['r_id'].tolist()))
+    rec.count('containment_cases')
+    tag = '%s threshold %r (boundary score of %d in %d tokens is %r): ' % (m, t, b, a, t0)
+    for other in ('PrefixFilter', 'SizeFilter'):
+        extra = outs['PositionFilter'] - outs[other]
+        if extra:
+            rec.violation('refinement', tag + 'PositionFilter.filter_tables keeps %r which %s with the same '
+                          'parameters on the same tables does not' % (sorted(extra)[:3], other), case=case)
+    pair = (1, 2) if case['big_left'] else (2, 1)
+    if t0 >= t and pair not in outs['SizeFilter']:
+        rec.violation('size_keep', tag + 'SizeFilter.filter_tables drops the containment pair although its '
+                      'counts allow the threshold to be met', case=case)
+    if t0 < t - 1e-4 and pair in outs['SizeFilter']:
+        rec.violation('size_tight', tag + 'SizeFilter.filter_tables keeps the pair although the best '
+                      'attainable similarity is more than 1e-4 below the threshold', case=case)
+    return {'n': len(outs['PositionFilter'])}
+
+
 def run_shard(shard, rec):
     ssj = env.load()
     monitors.import_repo_modules()
@@ -356,6 +408,17 @@ def run_shard(shard, rec):
                     rec.count('size_must_drop', st['drop'])
                     rec.case(sig=('size_ed', q, pad, k), nontrivial=st['keep'] > 0 and st['drop'] > 0)
         rec.sample({'workload': 'size grid (edit distance)', 'string lengths': '0..%d' % shard['N']}, limit=1)
+    elif kind == 'contain':
+        rng = random.Random(shard['seed'])
+        combos = [(a, b) for a in range(1, shard['N'] + 1) for b in range(1, a + 1)]
+        for i in range(shard['n']):
+            a, b = rng.choice(combos)
+            case = {'gen': 'contain', 'a': a, 'b': b, 'measure': RATIO3[i % 3], 'big_left': bool(i % 2),
+                    'delta': rng.choice([1e-6, 3e-6, 1e-5, 3e-5, 6e-5, 1e-4, 2e-4, -1e-6, 0.0]),
+                    'n_jobs': 1 if i % 5 else 2}
+            st = contain_case(case, rec, ssj)
+            rec.case(sig=('contain', a, b, case['measure'], case['delta'], case['big_left']), nontrivial=True)
+        rec.sample({'workload': 'containment pairs next to the size boundary', 'N': shard['N']}, limit=1)
     else:
         fn = nocommon_case if kind == 'nocommon' else subset_case
         for i in range(shard['n']):
